@@ -151,6 +151,14 @@ func rulesC05(p *Prog, r *Report) {
 			}
 			return walk(f)
 		}
+		reachesAny := func(f *ssa.Function, targets []*ssa.Function) bool {
+			for _, t := range targets {
+				if reaches(f, t) {
+					return true
+				}
+			}
+			return false
+		}
 		var kwCalls, idCalls []*ssa.Call
 		for _, b := range pt.Blocks {
 			for _, in := range b.Instrs {
@@ -162,7 +170,7 @@ func rulesC05(p *Prog, r *Report) {
 				switch {
 				case reaches(callee, kw.ReadFn):
 					kwCalls = append(kwCalls, c)
-				case kw.ReadRegex != nil && reaches(callee, kw.ReadRegex), kw.ReadClass != nil && reaches(callee, kw.ReadClass):
+				case kw.ReadRegex != nil && reaches(callee, kw.ReadRegex), reachesAny(callee, kw.ClassReaders):
 					idCalls = append(idCalls, c)
 				}
 			}
@@ -196,7 +204,7 @@ func rulesC05(p *Prog, r *Report) {
 						case reaches(g, kw.ReadFn):
 							lastKW = i
 							nk++
-						case kw.ReadRegex != nil && reaches(g, kw.ReadRegex), kw.ReadClass != nil && reaches(g, kw.ReadClass):
+						case kw.ReadRegex != nil && reaches(g, kw.ReadRegex), reachesAny(g, kw.ClassReaders):
 							if firstID < 0 {
 								firstID = i
 							}
@@ -1014,6 +1022,51 @@ func cursorMoveCore(p *Prog, r *Report, fb *fnBounds, f *ssa.Function, st ssa.In
 						}{linConst(int64(len(s))), "compared equal to a constant"})
 					}
 				}
+			}
+		}
+		// the byte at the cursor was tested: pred(buffer[cursor]) or buffer[cursor] == const
+		{
+			atCursor := func(v ssa.Value) bool {
+				var x, idx ssa.Value
+				switch t := v.(type) {
+				case *ssa.Index:
+					x, idx = t.X, t.Index
+				case *ssa.Lookup:
+					x, idx = t.X, t.Index
+				default:
+					return false
+				}
+				ld, ok := x.(*ssa.UnOp)
+				if !ok || ld.Op != token.MUL || !isStringType(x.Type()) {
+					return false
+				}
+				fa, ok := ld.X.(*ssa.FieldAddr)
+				if !ok || fieldOf(fa).Field != c.G || fieldOf(fa).Struct != c.T.String() {
+					return false
+				}
+				clsG := "fld:" + c.T.String() + "." + c.G
+				if fb.versionAt(clsG, ld) != fb.versionAt(clsG, st) {
+					return false
+				}
+				il, ok := fb.linOf(idx, v.(ssa.Instruction), 0)
+				return ok && il.sub(old).isConst() && il.sub(old).k.Sign() == 0
+			}
+			tested := false
+			switch t := cf.c.(type) {
+			case *ssa.Call:
+				tested = len(t.Call.Args) == 1 && !t.Call.IsInvoke() && atCursor(t.Call.Args[0])
+			case *ssa.BinOp:
+				if t.Op == token.EQL {
+					_, kx := t.X.(*ssa.Const)
+					_, ky := t.Y.(*ssa.Const)
+					tested = ky && atCursor(t.X) || kx && atCursor(t.Y)
+				}
+			}
+			if tested {
+				matched = append(matched, struct {
+					l   lin
+					why string
+				}{linConst(1), "the byte at the cursor was tested"})
 			}
 		}
 		if bo, ok := cf.c.(*ssa.BinOp); ok && bo.Op == token.NEQ {
